@@ -48,7 +48,12 @@ type state struct {
 	c    *hlib.Ctx
 	r    runner
 	seen map[string]bool
+	// timeouts reported per decoder: each costs the 2 s of the watchdog, so once a decoder has hung on
+	// maxTimeoutsPerKind inputs (every one of them reported) its remaining cases are not run
+	timeouts map[string]int
 }
+
+const maxTimeoutsPerKind = 25
 
 func allocBound(n int) uint64 { return 64*uint64(n) + 1<<20 }
 
@@ -71,7 +76,14 @@ func (s *state) try(kind string, data []byte, origin string) {
 		return
 	}
 	s.seen[key] = true
+	if s.timeouts[kind] >= maxTimeoutsPerKind {
+		s.c.Stat("c16.skipped_after_"+strconv.Itoa(maxTimeoutsPerKind)+"_timeouts."+kind, 1)
+		return
+	}
 	res, alloc := s.r.call(kind, data)
+	if res == "timeout" {
+		s.timeouts[kind]++
+	}
 	if kind == "csv" && unsupportedCSV(data) {
 		// quoted fields are outside the modelled subset of encoding/csv: no data comparison, but the real
 		// decoder must still neither panic, hang, crash nor over-allocate on them
@@ -143,7 +155,7 @@ func (s *state) tryAll(sm sample, data []byte, origin string) {
 }
 
 func run(c *hlib.Ctx) {
-	s := &state{c: c, seen: map[string]bool{}}
+	s := &state{c: c, seen: map[string]bool{}, timeouts: map[string]int{}}
 	defer s.r.close()
 	corpus := buildCorpus(c.Rng)
 	c.Stat("c16.corpus.files", len(corpus))
@@ -170,6 +182,9 @@ func run(c *hlib.Ctx) {
 	s.longLists(thorough)
 	s.capLedger(thorough)
 	s.longHeaders(thorough)
+	s.rowLines(c.N * 2)
+	s.bigSTL()
+	s.bigOFF(thorough)
 	// grammar-aware random stream
 	for i := 0; i < c.N*4; i++ {
 		sm := randomStream(c.Rng)
@@ -258,6 +273,28 @@ func buildCorpus(r *rand.Rand) []sample {
 		w.Write([]ff.PLYValue{ff.PLYValueList{Length: ff.PLYValueUint8{Value: 3}, Values: []ff.PLYValue{
 			ff.PLYValueInt32{Value: 0}, ff.PLYValueInt32{Value: 1}, ff.PLYValueInt32{Value: 2}}}})
 		out = append(out, sample{"ply-mesh-binary", "ply", append([]byte{}, buf.Bytes()...)})
+	}
+	// the same mesh as an ASCII file (every row is a text line: ReadColorPLY decodes it), and with a comment
+	// row inside the body (the row reader skips it)
+	{
+		h := &ff.PLYHeader{Format: ff.PLYFormatASCII, Elements: []*ff.PLYElement{
+			ff.NewPLYElementColoredVertex(3), ff.NewPLYElementFace(1)}}
+		var buf bytes.Buffer
+		w, _ := ff.NewPLYWriter(&buf, h)
+		for i := 0; i < 3; i++ {
+			w.Write([]ff.PLYValue{ff.PLYValueFloat32{Value: float32(i)}, ff.PLYValueFloat32{Value: 2}, ff.PLYValueFloat32{Value: 0.5 * float32(i*i)},
+				ff.PLYValueUint8{Value: 1}, ff.PLYValueUint8{Value: 2}, ff.PLYValueUint8{Value: 3}})
+		}
+		w.Write([]ff.PLYValue{ff.PLYValueList{Length: ff.PLYValueUint8{Value: 3}, Values: []ff.PLYValue{
+			ff.PLYValueInt32{Value: 0}, ff.PLYValueInt32{Value: 1}, ff.PLYValueInt32{Value: 2}}}})
+		data := append([]byte{}, buf.Bytes()...)
+		out = append(out, sample{"ply-mesh-ascii", "ply", data})
+		if i := bytes.Index(data, []byte("end_header\n")); i >= 0 {
+			j := i + len("end_header\n")
+			if k := bytes.IndexByte(data[j:], '\n'); k >= 0 {
+				out = append(out, sample{"ply-mesh-ascii-comment", "ply", splice(data, j+k+1, j+k+1, []byte("comment a row of the body\n"))})
+			}
+		}
 	}
 	// segment CSV through the real writer
 	{
@@ -352,6 +389,7 @@ func corruptions(sm sample) [][]byte {
 			lineStart = i + 1
 		}
 	}
+	out = append(out, blankCorruptions(data, nt)...)
 	if sm.format == "ply" {
 		lines := bytes.SplitAfter(data[:nt], []byte("\n"))
 		for e := 0; e < len(lines); e++ {
@@ -497,6 +535,13 @@ func randomStream(r *rand.Rand) sample {
 		if format == "ascii" {
 			for _, cnt := range rows {
 				for k := 0; k < cnt; k++ {
+					switch r.Intn(12) {
+					case 0: // a white-space-only row in front of the row
+						sb.WriteString(blankOf(r))
+						nl()
+					case 1: // the row indented
+						sb.WriteString(blankOf(r))
+					}
 					nt := r.Intn(8)
 					for q := 0; q < nt; q++ {
 						if q > 0 {
@@ -504,7 +549,16 @@ func randomStream(r *rand.Rand) sample {
 						}
 						sb.WriteString(randNum(r))
 					}
+					if r.Intn(12) == 0 {
+						sb.WriteString(blankOf(r))
+					}
 					nl()
+				}
+			}
+			if r.Intn(8) == 0 { // the file ends in white space (terminated or not)
+				sb.WriteString(blankOf(r))
+				if r.Intn(2) == 0 {
+					sb.WriteString("\n")
 				}
 			}
 		} else {
@@ -519,6 +573,12 @@ func randomStream(r *rand.Rand) sample {
 		nl()
 		n := r.Intn(12)
 		for k := 0; k < n; k++ {
+			if r.Intn(10) == 0 {
+				sb.WriteString(blankOf(r))
+				if r.Intn(2) == 0 {
+					nl()
+				}
+			}
 			switch r.Intn(9) {
 			case 0:
 				fmt.Fprintf(&sb, "facet normal %s %s %s", randNum(r), randNum(r), randNum(r))
@@ -541,6 +601,9 @@ func randomStream(r *rand.Rand) sample {
 			nl()
 		}
 		if r.Intn(2) == 0 {
+			if r.Intn(4) == 0 {
+				sb.WriteString(blankOf(r))
+			}
 			sb.WriteString("endsolid")
 			if r.Intn(2) == 0 {
 				sb.WriteString("\n")
@@ -573,7 +636,16 @@ func randomStream(r *rand.Rand) sample {
 		fmt.Fprintf(&sb, "%s %s %s", pick(r, []string{strconv.Itoa(nv), strconv.Itoa(nv), "-1", "4294967295", "x"}),
 			pick(r, []string{strconv.Itoa(nf), strconv.Itoa(nf), strconv.Itoa(nf), "-1", "9223372036854775807"}), randNum(r))
 		nl()
+		blankRow := func() {
+			if r.Intn(10) == 0 {
+				sb.WriteString(blankOf(r))
+				if r.Intn(2) == 0 {
+					nl()
+				}
+			}
+		}
 		for k := 0; k < nv; k++ {
+			blankRow()
 			fmt.Fprintf(&sb, "%s %s %s", randNum(r), randNum(r), randNum(r))
 			if r.Intn(15) == 0 {
 				sb.WriteString(" 1")
@@ -582,6 +654,7 @@ func randomStream(r *rand.Rand) sample {
 		}
 		for k := 0; k < nf; k++ {
 			kk := []int{3, 3, 3, 4, 2, 1, 0, 5}[r.Intn(8)]
+			blankRow()
 			fmt.Fprintf(&sb, "%d", kk)
 			for q := 0; q < kk; q++ {
 				fmt.Fprintf(&sb, " %s", pick(r, []string{strconv.Itoa(r.Intn(nv + 1)), strconv.Itoa(r.Intn(nv + 1)), strconv.Itoa(r.Intn(nv + 1)), "-1", "2147483648", "x"}))
@@ -592,6 +665,12 @@ func randomStream(r *rand.Rand) sample {
 	default: // CSV
 		n := r.Intn(5)
 		for k := 0; k < n; k++ {
+			if r.Intn(10) == 0 {
+				sb.WriteString(blankOf(r))
+				if r.Intn(2) == 0 {
+					nl()
+				}
+			}
 			nfld := []int{4, 4, 4, 4, 3, 5, 1, 0}[r.Intn(8)]
 			for q := 0; q < nfld; q++ {
 				if q > 0 {
